@@ -9,7 +9,9 @@ from . import c01, c02, c11, c14
 
 
 # `if is_component { self.wrap_children(<the three carriers, in the wrapper's parameter order>) } else { [..] }`
-WRAP_OR_LIST = re.compile(r"if is_component self\.wrap_children\((?:elems|slot_flag|slots), (?:elems|slot_flag|slots), (?:elems|slot_flag|slots)\) else Array\(ArrayLit\{")
+# (the wrapper may be a method or a free function; a free function is handed `self.options.optimize` as a fourth argument)
+WRAP_CALL = r"(?:self\.)?wrap_children\((?:elems|slot_flag|slots), (?:elems|slot_flag|slots), (?:elems|slot_flag|slots)(?:, self\.options\.optimize)?\)"
+WRAP_OR_LIST = re.compile(r"if is_component " + WRAP_CALL + r" else Array\(ArrayLit\{")
 
 
 def r03_1(ctx):
@@ -82,7 +84,7 @@ def r03_1(ctx):
             ifs = [x for x in walk(a["body"]) if x.get("k") == "If" and expr_str(x["cond"]) == "self.options.enable_object_slots"]
             for i_ in ifs:
                 el = expr_str(i_["else"]) if i_.get("else") is not None else ""
-                r.ob("%s child with enableObjectSlots off is always wrapped" % key, el.startswith("self.wrap_children("), C.mloc(ch, i_), "else: %s" % el[:60])
+                r.ob("%s child with enableObjectSlots off is always wrapped" % key, bool(re.match(WRAP_CALL, el)), C.mloc(ch, i_), "else: %s" % el[:60])
     r.ob("all documented single-child arms exist", {"Ident", "Call", "Arrow|Fn", "Object", "_"} <= seen, C.mloc(ch, inner), "arms: %s" % sorted(seen))
     multi = arms.get("_")
     if multi is not None:
